@@ -35,6 +35,10 @@ def run(repo, res, tier):
     res.rule("TAB-XSD", "XML names and header attributes equal the solution schema's elements, attributes and numeric types", 12)
     res.rule("TAB-CLASS", "every state type is readable: the reader's class table covers it and the class has all its fields", 14)
     res.rule("NUMFMT", "numbers are written losslessly and read back with the matching parser; states are ordered by time", 8)
+    res.rule("ID-ROUNDTRIP", "vehicle models, vehicle types, cost functions, planning problem ids and trajectories of a written solution are read back for the same planning problem (abstract evaluation of writer and reader, shared with C13)", 5)
+    from .c13 import solution_roundtrip_rules
+
+    solution_roundtrip_rules(repo, res, "ID-ROUNDTRIP")
     mod = repo.mod(SO)
 
     def enum_table(name):
@@ -103,13 +107,12 @@ def run(repo, res, tier):
     hdr_schema = sorted(a[0] for a in rt.attributes)
     wr = repo.cls(SO, "CommonRoadSolutionWriter")
     crn = wr.methods["_create_root_node"]
-    written = sorted({n.args[0].value for n in walk_no_nested(crn) if isinstance(n, ast.Call) and isinstance(n.func, ast.Attribute) and n.func.attr == "set" and n.args and isinstance(n.args[0], ast.Constant)})
     rdr = repo.cls(SO, "CommonRoadSolutionReader")
     ph = rdr.methods["_parse_header"]
-    readn = sorted({n.args[0].value for n in walk_no_nested(ph) if isinstance(n, ast.Call) and isinstance(n.func, ast.Attribute) and n.func.attr == "get" and n.args and isinstance(n.args[0], ast.Constant)})
-    res.check("TAB-XSD", "header attributes written %s = read %s = schema %s" % (written, readn, hdr_schema), written == readn == hdr_schema, mod, crn, "header attributes written %s, read %s, schema %s" % (written, readn, hdr_schema), "meta data is written under a name the reader (or the schema) does not know", qualname="CommonRoadSolutionWriter._create_root_node")
-    tags = [n for n in walk_no_nested(crn) if isinstance(n, ast.Call) and norm(n.func).endswith("Element") and n.args and isinstance(n.args[0], ast.Constant)]
-    res.check("TAB-XSD", "root element is <CommonRoadSolution>", len(tags) == 1 and tags[0].args[0].value == "CommonRoadSolution", mod, crn, "solution root tag", "the document root is not the schema's root element", qualname="CommonRoadSolutionWriter._create_root_node")
+    # header: writer's root node -> reader's header parser, evaluated against an element model (c14ev)
+    from . import c14ev
+
+    c14ev.header_rule(repo, res, hdr_schema, "CommonRoadSolution")
 
     # ---------------------------------------------------------------- class table (a dict literal StateType.X -> class;
     # it may be a local of _parse_state, a class-level or a module-level constant)
@@ -219,35 +222,7 @@ def run(repo, res, tier):
                     nm = canon(c_.args[1], prd, prd.stmt_of(c_), [a.arg for a in ps.args.args])
                     ok = canon(kw.value, prd, prd.stmt_of(c_), [a.arg for a in ps.args.args]) in ("%s != 'time'" % nm, "'time' != %s" % nm)
     res.check("NUMFMT", "only 'time' is parsed as int", ok, mod, ps, "_parse_state as_float", "a float field is truncated to int (or time parsed as float)", qualname="CommonRoadSolutionReader._parse_state")
-    pt = rdr.methods["_parse_trajectory"]
-    tt = " ; ".join(norm(s) for s in pt.body)
-    # the parsed states are put into ascending time order before the trajectory is built
-    sort_ok = False
-    for c_ in ast.walk(pt):
-        if isinstance(c_, ast.Call):
-            keys_ = [kw.value for kw in c_.keywords if kw.arg == "key"]
-            is_sort = (norm(c_.func) == "sorted" and c_.args) or (isinstance(c_.func, ast.Attribute) and c_.func.attr == "sort")
-            if is_sort and len(keys_) == 1 and not any(kw.arg == "reverse" for kw in c_.keywords):
-                kt = norm(keys_[0])
-                if kt in ("attrgetter('time_step')", "operator.attrgetter('time_step')") or (isinstance(keys_[0], ast.Lambda) and norm(keys_[0].body) == "%s.time_step" % keys_[0].args.args[0].arg):
-                    sort_ok = True
-    ok = sort_ok and "initial_time_step=state_list[0].time_step" in tt
-    res.check("NUMFMT", "states sorted by time step; trajectory starts at the first", ok, mod, pt, "_parse_trajectory ordering", "time steps are not returned in ascending order", qualname="CommonRoadSolutionReader._parse_trajectory")
-    ok = "int(trajectory_node.get('planningProblem'))" in tt
-    ctn = wr.methods["_create_trajectory_node"]
-    tc = " ; ".join(norm(s) for s in ctn.body)
-    ok = ok and "trajectory_node.set('planningProblem', str(pp_id))" in tc and "et.Element(trajectory_type.value)" in tc and "TrajectoryType(trajectory_node.tag)" in tt
-    res.check("NUMFMT", "planning problem id and trajectory tag written and parsed inversely", ok, mod, ctn, "trajectory node attributes", "planning-problem id or trajectory type do not survive", qualname="CommonRoadSolutionWriter._create_trajectory_node")
-    # header numbers / dates
-    tcr = " ; ".join(norm(s) for s in crn.body)
-    tph = " ; ".join(norm(s) for s in ph.body)
-    wfmt = [n.args[0].value for n in walk_no_nested(crn) if isinstance(n, ast.Call) and isinstance(n.func, ast.Attribute) and n.func.attr == "strftime" and n.args and isinstance(n.args[0], ast.Constant)]
-    rfmt = [n.args[1].value for n in sorted((x for x in walk_no_nested(ph) if isinstance(x, ast.Call)), key=lambda x: (x.lineno, x.col_offset)) if isinstance(n.func, ast.Attribute) and n.func.attr == "strptime" and len(n.args) == 2 and isinstance(n.args[1], ast.Constant)]
-    ok = len(wfmt) == 1 and bool(rfmt) and rfmt[0] == wfmt[0] and "%S" in wfmt[0]
-    res.check("NUMFMT", "date written with %r and parsed with the same format first" % (wfmt[0] if wfmt else None), ok, mod, crn, "date formats written %s read %s" % (wfmt, rfmt), "the date does not survive to the second", qualname="CommonRoadSolutionWriter._create_root_node")
-    ok = "root_node.set('computation_time', str(solution.computation_time))" in tcr and "computation_time = float(computation_time)" in tph
-    res.check("NUMFMT", "computation time written with str() and parsed with float()", ok, mod, crn, "computation_time formatting", "the computation time is not reproduced exactly", qualname="CommonRoadSolutionWriter._create_root_node")
-    # writer emits the state nodes of a trajectory in list order
-    ok = "for state in trajectory.state_list" in tc and "trajectory_node.append(state_node)" in tc
-    res.check("NUMFMT", "states written in list order", ok, mod, ctn, "trajectory node state order", "states are dropped or re-ordered when written", qualname="CommonRoadSolutionWriter._create_trajectory_node")
+    # trajectory node (tag, planning problem id, states in order, time ordering on reading), header numbers and dates:
+    # decided by evaluating writer and reader against an element model (c14ev) — see also header_rule above
+    c14ev.trajectory_rule(repo, res)
     return {"state_fields": {k: len(v) for k, v in sf.items()}, "xsd_trajectories": sorted(xsd_traj)}
